@@ -866,13 +866,14 @@ fn dump_crate<'tcx>(tcx: TyCtxt<'tcx>, features: &[String]) -> String {
         let did = ldid.to_def_id();
         let dk = tcx.def_kind(did);
         let is_fn_like = matches!(dk, DefKind::Fn | DefKind::AssocFn | DefKind::Closure);
-        if !is_fn_like {
+        let is_const = matches!(dk, DefKind::Const { .. } | DefKind::AssocConst { .. });
+        if !is_fn_like && !is_const {
             continue;
         }
         if tcx.is_constructor(did) {
             continue;
         }
-        let body: &Body<'tcx> = tcx.optimized_mir(did);
+        let body: &Body<'tcx> = if is_const { tcx.mir_for_ctfe(did) } else { tcx.optimized_mir(did) };
         let env = ty::TypingEnv::post_analysis(tcx, did);
         let bcx = BodyCx { cx: &cx, body, env };
         let mut v = cx.fn_info(did, None);
